@@ -88,6 +88,9 @@ func oracleC12(op string, a []string) string {
 	if op != "conv" || len(a) < 2 {
 		return skip
 	}
+	if r := oracleC12pure(a); r != "" {
+		return r
+	}
 	fn, a := a[0], a[1:]
 	switch fn {
 	case "plmn2n":
@@ -490,4 +493,13 @@ func genConv12(g *Gen, w *bufio.Writer) {
 			fmt.Fprintf(w, "conv mi %s %s\n", m, hexs(b))
 		}
 	}
+}
+
+// a conversion is a function of its argument octets: same answer on a second call with the same slices, arguments untouched
+func oracleC12pure(a []string) string {
+	r := withTimeout(func() string { return convOp(a) })
+	if i := strings.Index(r, " !"); i >= 0 {
+		return "FAIL conversion " + a[0] + " is not a function of its arguments:" + r[i+1:]
+	}
+	return ""
 }
